@@ -331,20 +331,25 @@ void sm4_cbc_encrypt_blocks(const SM4_KEY *key, uint8_t iv[16],
 void sm4_cbc_decrypt_blocks(const SM4_KEY *key, uint8_t iv[16],
 	const uint8_t *in, size_t nblocks, uint8_t *out)
 {
-	const uint8_t *piv = iv;
+	uint8_t civ[16];
+	uint8_t cblock[16];
+
+	memcpy(civ, iv, 16);
 
 	while (nblocks--) {
 		size_t i;
+		// keep the ciphertext block: out may be the same buffer as in
+		memcpy(cblock, in, 16);
 		sm4_encrypt(key, in, out);
 		for (i = 0; i < 16; i++) {
-			out[i] ^= piv[i];
+			out[i] ^= civ[i];
 		}
-		piv = in;
+		memcpy(civ, cblock, 16);
 		in += 16;
 		out += 16;
 	}
 
-	memcpy(iv, piv, 16);
+	memcpy(iv, civ, 16);
 }
 
 static void ctr_incr(uint8_t a[16]) {
